@@ -23,6 +23,7 @@ pub fn opts() -> GenOpts {
     o.twins = true;
     o.any = true;
     o.adjacent_optional_words = true;
+    o.adjacent_in_adjacent = true;
     o.usage_fallback = true;
     o.catch = true;
     o.adjacent_cmds = true;
